@@ -1,1 +1,261 @@
-From AV Require Import lib.Num model.C06_Model.
+(* C06 — property theorems only.  Each is closed by [exact] of a lemma from proofs/C06_*.v.
+   All statements are about the real-number instance (RNum) of model/C06_Model.v.
+   [swF] = the repaired behaviour (both switches on); [conv] = the altitude -> flight-level conversion, a
+   parameter here; the conversion regenerated from the source is discharged in link/C06_Link_F4*.v. *)
+From Coq Require Import List Reals Bool Arith.
+From AV Require Import lib.Num model.C06_Model proofs.C06_Lists proofs.C06_Proofs proofs.C06_Continuity proofs.C06_Witness.
+Import ListNotations.
+Local Open Scope R_scope.
+
+(* (1) at every tabulated (flight level, mass) of a phase whose sub-table passes validation, the model returns
+       exactly the tabulated airspeed, climb/descent rate and fuel flow *)
+Theorem C06_node_exact :
+  forall sw (conv : R -> R) rows p (r : row RNum) alt,
+    sw_sort sw = true -> sw_set sw = true ->
+    @validate RNum sw (@subset RNum p rows) = None ->
+    In r (@subset RNum p rows) -> conv alt = r_fl r ->
+    @evaluate RNum sw conv rows p alt (@MVal RNum (r_mass r)) = @Ok RNum (r_tas r) (r_rocd r) (r_ff r).
+Proof. exact node_exact. Qed.
+Print Assumptions C06_node_exact.
+
+(* (1') ... also when the level is expressed in metres with a factor [c] that [conv] inverts
+        (link/C06_Link_F4fixed.v: the regenerated conversion inverts the regenerated FL_TO_METERS;
+         link/C06_Link_F4open.v: for the shipped constants it does not -- finding F4) *)
+Theorem C06_node_exact_in_metres :
+  forall sw (conv : R -> R) (c : R) rows p (r : row RNum),
+    sw_sort sw = true -> sw_set sw = true ->
+    (forall f, conv (f * c) = f) ->
+    @validate RNum sw (@subset RNum p rows) = None ->
+    In r (@subset RNum p rows) ->
+    @evaluate RNum sw conv rows p (r_fl r * c) (@MVal RNum (r_mass r)) = @Ok RNum (r_tas r) (r_rocd r) (r_ff r).
+Proof. exact node_exact_in_metres. Qed.
+Print Assumptions C06_node_exact_in_metres.
+
+(* (2) between table points every output lies between the smallest and the largest of the table values at the
+       rows on the enclosing grid lines (4 rows with several masses, 2 rows in a single-mass phase) *)
+Theorem C06_bounded_by_corners :
+  forall sw (conv : R -> R) rows p alt q t rc ff,
+    sw_sort sw = true -> sw_set sw = true ->
+    @evaluate RNum sw conv rows p alt q = @Ok RNum t rc ff ->
+    exists cs : list (row RNum), cs <> [] /\
+      (forall c, In c cs -> In c (@subset RNum p rows)) /\
+      surrounding (@subset RNum p rows) (conv alt) (@resolve_mass RNum rows q) cs /\
+      forall v lo hi, (forall c, In c cs -> lo <= @sel RNum v c <= hi) -> lo <= out v (@Ok RNum t rc ff) <= hi.
+Proof. exact bounded_by_corners. Qed.
+Print Assumptions C06_bounded_by_corners.
+
+(* (3) continuity.  Every output is Lipschitz, hence continuous, in (flight level, mass) on the set of states for
+       which a value is returned; through any Lipschitz altitude conversion (link: the regenerated one is) this is the
+       epsilon-delta statement in (altitude, mass).  Also kept: the returned value is the cell formula of the enclosing
+       cell, that formula is affine in each coordinate, and two cells sharing an edge agree on it. *)
+Theorem C06_evaluate_continuous :
+  forall sw (conv : R -> R) (K : R) rows p,
+    0 <= K -> (forall a a', Rabs (conv a' - conv a) <= K * Rabs (a' - a)) ->
+    forall v alt m t rc ff,
+      @evaluate RNum sw conv rows p alt (@MVal RNum m) = @Ok RNum t rc ff ->
+      forall eps, 0 < eps ->
+      exists delta, 0 < delta /\
+        forall alt' m' t' rc' ff',
+          Rabs (alt' - alt) < delta -> Rabs (m' - m) < delta ->
+          @evaluate RNum sw conv rows p alt' (@MVal RNum m') = @Ok RNum t' rc' ff' ->
+          Rabs (out v (@Ok RNum t' rc' ff') - out v (@Ok RNum t rc ff)) < eps.
+Proof. exact evaluate_continuous. Qed.
+Print Assumptions C06_evaluate_continuous.
+
+Theorem C06_interp_phase_lipschitz :
+  forall sw (sub : list (row RNum)),
+    exists Lf Lm, 0 <= Lf /\ 0 <= Lm /\
+      forall v x m x' m' t rc ff t' rc' ff',
+        @interp_phase RNum sw sub x m = @Ok RNum t rc ff ->
+        @interp_phase RNum sw sub x' m' = @Ok RNum t' rc' ff' ->
+        Rabs (out v (@Ok RNum t' rc' ff') - out v (@Ok RNum t rc ff)) <= Lf * Rabs (x' - x) + Lm * Rabs (m' - m).
+Proof. exact interp_phase_lipschitz. Qed.
+Print Assumptions C06_interp_phase_lipschitz.
+
+Theorem C06_edge_agreement :
+  (forall V f0 f1 f2 m0 m1 m, f0 < f1 -> f1 < f2 ->
+     cell_value V f0 f1 m0 m1 f1 m = cell_value V f1 f2 m0 m1 f1 m) /\
+  (forall V f0 f1 m0 m1 m2 x, m0 < m1 -> m1 < m2 ->
+     cell_value V f0 f1 m0 m1 x m1 = cell_value V f0 f1 m1 m2 x m1) /\
+  (forall V f0 f1 f2, f0 < f1 -> f1 < f2 -> seg_value V f0 f1 f1 = seg_value V f1 f2 f1).
+Proof. exact (conj edge_agreement_fl (conj edge_agreement_mass edge_agreement_seg)). Qed.
+Print Assumptions C06_edge_agreement.
+
+Theorem C06_affine_in_cell :
+  (forall V f0 f1 m0 m1 x x' m, f0 < f1 ->
+     cell_value V f0 f1 m0 m1 x' m - cell_value V f0 f1 m0 m1 x m
+     = (x' - x) * ((cell_value V f0 f1 m0 m1 f1 m - cell_value V f0 f1 m0 m1 f0 m) / (f1 - f0))) /\
+  (forall V f0 f1 m0 m1 x m m', m0 < m1 ->
+     cell_value V f0 f1 m0 m1 x m' - cell_value V f0 f1 m0 m1 x m
+     = (m' - m) * ((cell_value V f0 f1 m0 m1 x m1 - cell_value V f0 f1 m0 m1 x m0) / (m1 - m0))).
+Proof. exact (conj cell_value_affine_fl cell_value_affine_mass). Qed.
+Print Assumptions C06_affine_in_cell.
+
+Theorem C06_evaluate_is_cell_value :
+  forall sw (conv : R -> R) rows p alt q t rc ff,
+    @evaluate RNum sw conv rows p alt q = @Ok RNum t rc ff ->
+    let sub := @subset RNum p rows in
+    (1 < length (@masses RNum sub))%nat ->
+    exists f0 f1 m0 m1 yf ym,
+      @bracket RNum (@fls RNum sub) (conv alt) = Some (f0, f1, yf) /\
+      @bracket RNum (@masses RNum sub) (@resolve_mass RNum rows q) = Some (m0, m1, ym) /\
+      forall v, out v (@Ok RNum t rc ff) = @bil RNum (@node_val RNum v sub) (f0, f1, yf) (m0, m1, ym).
+Proof. exact evaluate_is_cell_value. Qed.
+Print Assumptions C06_evaluate_is_cell_value.
+
+(* (4) the outcome depends on the altitude only through the flight level; table, phase, level, mass decide it *)
+Theorem C06_depends_only_on_alt_mass_phase :
+  forall sw (conv conv' : R -> R) rows p alt alt' q,
+    conv alt = conv' alt' ->
+    @evaluate RNum sw conv rows p alt q = @evaluate RNum sw conv' rows p alt' q.
+Proof. exact depends_only_on_alt_mass_phase. Qed.
+Print Assumptions C06_depends_only_on_alt_mass_phase.
+
+(* (5) no extrapolation: with a validated phase sub-table the query is rejected with "out of bounds in dimension 0"
+       iff the level is below every tabulated level of the phase or above every one; with "dimension 1" iff the level
+       is inside, the phase has several masses and the mass is below / above every tabulated mass; a value is returned
+       iff the level is inside and (the phase has one mass or the mass is inside) *)
+Theorem C06_outside_rejected :
+  forall sw (conv : R -> R) rows p alt q,
+    @validate RNum sw (@subset RNum p rows) = None ->
+    let sub := @subset RNum p rows in
+    let x := conv alt in
+    let m := @resolve_mass RNum rows q in
+    let res := @evaluate RNum sw conv rows p alt q in
+    (res = @Rej RNum (EBounds 0) <-> outside sub (@r_fl RNum) x) /\
+    (res = @Rej RNum (EBounds 1) <->
+       ~ outside sub (@r_fl RNum) x /\ (1 < length (@masses RNum sub))%nat /\ outside sub (@r_mass RNum) m) /\
+    ((exists t rc ff, res = @Ok RNum t rc ff) <->
+       ~ outside sub (@r_fl RNum) x /\ ((1 < length (@masses RNum sub))%nat -> ~ outside sub (@r_mass RNum) m)).
+Proof. exact outside_rejected. Qed.
+Print Assumptions C06_outside_rejected.
+
+Theorem C06_single_mass_phase_ignores_mass :
+  forall sw (conv : R -> R) rows p alt q q',
+    (length (@masses RNum (@subset RNum p rows)) <= 1)%nat ->
+    @evaluate RNum sw conv rows p alt q = @evaluate RNum sw conv rows p alt q'.
+Proof. exact single_mass_phase_ignores_mass. Qed.
+Print Assumptions C06_single_mass_phase_ignores_mass.
+
+(* a phase that answers at all has the masses of its kind: three, or one in descent *)
+Theorem C06_evaluated_phase_has_its_masses :
+  forall sw (conv : R -> R) rows p alt q t rc ff,
+    @evaluate RNum sw conv rows p alt q = @Ok RNum t rc ff ->
+    length (@masses RNum (@subset RNum p rows)) = match p with Descent => 1%nat | _ => 3%nat end.
+Proof. exact evaluated_phase_has_its_masses. Qed.
+Print Assumptions C06_evaluated_phase_has_its_masses.
+
+(* (6) symbolic minimum / maximum mass = the extreme masses of the table *)
+Theorem C06_minmax_mass_are_extremes :
+  forall rows : list (row RNum), rows <> [] ->
+    (exists r, In r rows /\ r_mass r = @resolve_mass RNum rows (@MMin RNum)) /\
+    (forall r, In r rows -> @resolve_mass RNum rows (@MMin RNum) <= r_mass r) /\
+    (exists r, In r rows /\ r_mass r = @resolve_mass RNum rows (@MMax RNum)) /\
+    (forall r, In r rows -> r_mass r <= @resolve_mass RNum rows (@MMax RNum)).
+Proof. exact minmax_mass_are_extremes. Qed.
+Print Assumptions C06_minmax_mass_are_extremes.
+
+Theorem C06_symbolic_mass_is_that_mass :
+  forall sw (conv : R -> R) rows p alt,
+    @evaluate RNum sw conv rows p alt (@MMin RNum)
+      = @evaluate RNum sw conv rows p alt (@MVal RNum (@resolve_mass RNum rows (@MMin RNum))) /\
+    @evaluate RNum sw conv rows p alt (@MMax RNum)
+      = @evaluate RNum sw conv rows p alt (@MVal RNum (@resolve_mass RNum rows (@MMax RNum))).
+Proof. exact symbolic_mass_is_that_mass. Qed.
+Print Assumptions C06_symbolic_mass_is_that_mass.
+
+(* (7) every row of a PTF file is reproduced by the table built from it, after unit conversion with the factors
+       KN (knots -> m/s), FPM (ft/min -> m/s), M2S (per minute -> per second); rates beyond the ROCD tolerance *)
+Theorem C06_ptf_climb_rows_reproduced :
+  forall (KN FPM M2S : R) (conv : R -> R) (P : ptf RNum) c alt,
+    let rows := @build_table RNum KN FPM M2S P in
+    @validate RNum swF (@subset RNum Climb rows) = None ->
+    In c (p_climb P) ->
+    @tol RNum < pc_lo c * FPM -> @tol RNum < pc_nom c * FPM -> @tol RNum < pc_hi c * FPM ->
+    conv alt = pc_fl c ->
+    @evaluate RNum swF conv rows Climb alt (@MVal RNum (p_low P))
+      = @Ok RNum (pc_tas c * KN) (pc_lo c * FPM) (pc_ff c / M2S) /\
+    @evaluate RNum swF conv rows Climb alt (@MVal RNum (p_nom P))
+      = @Ok RNum (pc_tas c * KN) (pc_nom c * FPM) (pc_ff c / M2S) /\
+    @evaluate RNum swF conv rows Climb alt (@MVal RNum (p_high P))
+      = @Ok RNum (pc_tas c * KN) (pc_hi c * FPM) (pc_ff c / M2S).
+Proof. exact ptf_climb_rows_reproduced. Qed.
+Print Assumptions C06_ptf_climb_rows_reproduced.
+
+Theorem C06_ptf_cruise_rows_reproduced :
+  forall (KN FPM M2S : R) (conv : R -> R) (P : ptf RNum) c alt,
+    let rows := @build_table RNum KN FPM M2S P in
+    @validate RNum swF (@subset RNum Cruise rows) = None ->
+    In c (p_cruise P) ->
+    conv alt = pr_fl c ->
+    @evaluate RNum swF conv rows Cruise alt (@MVal RNum (p_low P)) = @Ok RNum (pr_tas c * KN) 0 (pr_lo c / M2S) /\
+    @evaluate RNum swF conv rows Cruise alt (@MVal RNum (p_nom P)) = @Ok RNum (pr_tas c * KN) 0 (pr_nom c / M2S) /\
+    @evaluate RNum swF conv rows Cruise alt (@MVal RNum (p_high P)) = @Ok RNum (pr_tas c * KN) 0 (pr_hi c / M2S).
+Proof. exact ptf_cruise_rows_reproduced. Qed.
+Print Assumptions C06_ptf_cruise_rows_reproduced.
+
+Theorem C06_ptf_descent_rows_reproduced :
+  forall (KN FPM M2S : R) (conv : R -> R) (P : ptf RNum) d alt,
+    let rows := @build_table RNum KN FPM M2S P in
+    @validate RNum swF (@subset RNum Descent rows) = None ->
+    In d (p_descent P) ->
+    (- pd_rocd d) * FPM < - @tol RNum ->
+    conv alt = pd_fl d ->
+    @evaluate RNum swF conv rows Descent alt (@MVal RNum (p_nom P))
+      = @Ok RNum (pd_tas d * KN) ((- pd_rocd d) * FPM) (pd_ff d / M2S).
+Proof. exact ptf_descent_rows_reproduced. Qed.
+Print Assumptions C06_ptf_descent_rows_reproduced.
+
+(* (8) load-time validation (repaired coverage test) accepts a table iff it has the required number of masses, every
+       phase sub-table is a complete flight-level x mass grid, and the FL-only columns are functions of the level *)
+Theorem C06_incomplete_grid_refused :
+  forall sw rows, sw_set sw = true ->
+    (@load RNum sw rows = None <->
+     length (@masses RNum rows) = @required_masses RNum rows /\
+     (forall p, full_grid (@subset RNum p rows)) /\
+     fl_only VTas (@subset RNum Cruise rows) /\
+     fl_only VTas (@subset RNum Climb rows) /\ fl_only VFf (@subset RNum Climb rows) /\
+     fl_only VTas (@subset RNum Descent rows) /\ fl_only VFf (@subset RNum Descent rows) /\
+     fl_only VRocd (@subset RNum Descent rows)).
+Proof. exact incomplete_grid_refused. Qed.
+Print Assumptions C06_incomplete_grid_refused.
+
+Theorem C06_incomplete_grid_is_refused :
+  forall sw rows p, sw_set sw = true -> ~ full_grid (@subset RNum p rows) -> exists e, @load RNum sw rows = Some e.
+Proof. exact incomplete_grid_is_refused. Qed.
+Print Assumptions C06_incomplete_grid_is_refused.
+
+(* ---- the behaviour before the repairs, kept as documentation of the findings ---- *)
+
+(* FC06b: single-mass values taken in row order *)
+Theorem C06_node_exact_row_order_before_fix_refuted :
+  exists (rows : list (row RNum)) (r : row RNum),
+    @validate RNum (mkSw false true) (@subset RNum Descent rows) = None /\
+    In r (@subset RNum Descent rows) /\
+    @evaluate RNum (mkSw false true) (fun x => x) rows Descent (r_fl r) (@MVal RNum (r_mass r))
+      <> @Ok RNum (r_tas r) (r_rocd r) (r_ff r).
+Proof. exact row_order_before_fix_refuted. Qed.
+Print Assumptions C06_node_exact_row_order_before_fix_refuted.
+
+(* FC06c: the count-only coverage test *)
+Theorem C06_incomplete_grid_refused_before_fix_refuted :
+  exists rows : list (row RNum),
+    @load RNum (mkSw true false) rows = None /\ ~ full_grid (@subset RNum Cruise rows).
+Proof. exact coverage_count_test_before_fix_refuted. Qed.
+Print Assumptions C06_incomplete_grid_refused_before_fix_refuted.
+
+(* ---- non-vacuity: a concrete table meeting the hypotheses of the theorems above ---- *)
+Example C06_nonvacuous :
+  @load RNum swF w_ok = None /\
+  (forall p, @validate RNum swF (@subset RNum p w_ok) = None) /\
+  @evaluate RNum swF (fun x => x) w_ok Cruise (1 / 2) (@MVal RNum (5 / 2)) = @Ok RNum (11 / 2) 0 (9 / 2) /\
+  @evaluate RNum swF (fun x => x) w_ok Cruise 2 (@MVal RNum 2) = @Rej RNum (EBounds 0) /\
+  @evaluate RNum swF (fun x => x) w_ok Cruise 1 (@MVal RNum 4) = @Rej RNum (EBounds 1) /\
+  @evaluate RNum swF (fun x => x) w_ok Descent 0 (@MVal RNum 400) = @Ok RNum 4 (-1) 1 /\
+  @load RNum swF w_dup = Some (ECoverage Cruise) /\
+  @evaluate RNum swF (fun x => x) w_desc Descent 1 (@MVal RNum 1) = @Ok RNum 10 (-1) 1.
+Proof.
+  exact (conj w_ok_loads (conj w_ok_phases_valid (conj w_ok_interior
+          (conj (proj1 w_ok_outside) (conj (proj1 (proj2 w_ok_outside)) (conj (proj2 (proj2 w_ok_outside))
+          (conj coverage_after_fix row_order_after_fix))))))).
+Qed.
